@@ -273,3 +273,8 @@ Example C18_run18_example :
   run18 (CPark [116; 121; 112; 101; 100; 95; 115; 97; 118; 101]%Z [0; 2; 0; 0; 2; 1; 1; 1]%Z 1 2)
   = L [L [A 1; A 1; A 1; A 0]; L [A 0; A 1; L [A 3]; A 1]]%Z.
 Proof. vm_compute. reflexivity. Qed.
+
+(* the generated facts this property uses were lifted from the current source *)
+Theorem C18_generated_facts_present : GEN_LOCK_OK = true.
+Proof. reflexivity. Qed.
+Print Assumptions C18_generated_facts_present.
